@@ -137,7 +137,7 @@ def _parse(res):
         if isinstance(v, list) and v and isinstance(v[0], str):
             res.printed.append(v)
     # coverage: lines like "<Sweep line 10, col 1 to line 12, col 20 of module Driver>: 12:40"
-    for m in re.finditer(r"^<(\w+) line \d+, col \d+ to line \d+, col \d+ of module (\w+)>: (\d+):(\d+)", out, re.M):
+    for m in re.finditer(r"^<(\w+) line \d+, col \d+ to line \d+, col \d+ of module (\w+)(?: \([\d ]+\))?>: (\d+):(\d+)", out, re.M):
         name = m.group(1)
         d, t = int(m.group(3)), int(m.group(4))
         od, ot = res.coverage.get(name, (0, 0))
